@@ -18,24 +18,24 @@ import (
 const modulePath = "github.com/siglens/siglens"
 
 type World struct {
-	repo     string
-	verif    string
-	fset     *token.FileSet
-	pkgs     map[string]*packages.Package
-	prog     *ssa.Program
-	files    []*ContractFile
-	contracts map[string]*Contract // pkgPath::key  or external full name
-	specs    map[string]*SpecFn
-	ghosts   map[string]string
-	needTdiv bool
-	maxCands int
-	mirrorUsed []string
-	untagged   []string // non-assumed contracts without a props tag (never verified)
-	duplicates []string // functions with more than one contract of the same view
-	overlay  map[string][]byte
-	loadSecs float64
-	constGlobals map[*ssa.Global]*constGlobal
-	errGlobals map[*ssa.Global]bool
+	repo             string
+	verif            string
+	fset             *token.FileSet
+	pkgs             map[string]*packages.Package
+	prog             *ssa.Program
+	files            []*ContractFile
+	contracts        map[string]*Contract // pkgPath::key  or external full name
+	specs            map[string]*SpecFn
+	ghosts           map[string]string
+	needTdiv         bool
+	maxCands         int
+	mirrorUsed       []string
+	untagged         []string // non-assumed contracts without a props tag (never verified)
+	duplicates       []string // functions with more than one contract of the same view
+	overlay          map[string][]byte
+	loadSecs         float64
+	constGlobals     map[*ssa.Global]*constGlobal
+	errGlobals       map[*ssa.Global]bool
 	constGlobalsUsed map[string]bool
 }
 
